@@ -99,11 +99,6 @@ Definition simrel (s : pstate) (F : list ltree) (stk : stack) : Prop :=
   pstack s = start A :: rev (map fst stk) /\
   Forall2 (same_tree lexemes) F (rev (map snd stk)).
 
-Lemma last_opt_cons_rev (x : N) (l : list (N * tree)) :
-  last_opt (x :: rev (map fst l)) = Some (top A (match l with [] => [] | _ => l end)) ->
-  True.
-Proof. intros _. exact I. Qed.
-
 Lemma last_opt_pstack (st0 : N) (stk : stack) :
   last_opt (st0 :: rev (map fst stk)) = Some (match stk with [] => st0 | (s, _) :: _ => s end).
 Proof.
